@@ -11,7 +11,9 @@ package main
 // accumulated map tracked through the parameters — so the table is the order in which the
 // merge operations execute, wherever the statements live: moving a loop body (or a loop) into
 // a helper function does not change it, while a family that stops being merged into the map,
-// is merged with a different function or at a different position does.
+// is merged with a different function or at a different position does.  The branches of an if /
+// switch are alternatives: what they apply to the map is listed in sorted order, so negating a
+// test and swapping its branches does not change the table either.
 
 import (
 	"fmt"
@@ -20,6 +22,7 @@ import (
 	"go/token"
 	"os"
 	"path/filepath"
+	"sort"
 	"strings"
 
 	"verif/harness/internal/hx"
@@ -169,6 +172,28 @@ func (w *c04Walker) walk(n ast.Node, env *c04Env) {
 				w.walk(r, env)
 			}
 			return false
+		case *ast.IfStmt:
+			// the branches are alternatives: their merge operations are listed in a canonical
+			// (sorted) order, so `if c {A} else {B}` and `if !c {B} else {A}` give the same table
+			w.walk(v.Init, env)
+			w.walk(v.Cond, env)
+			var branches []ast.Node
+			branches = append(branches, v.Body)
+			if v.Else != nil {
+				branches = append(branches, v.Else)
+			}
+			w.alternatives(branches, env)
+			return false
+		case *ast.SwitchStmt:
+			w.walk(v.Init, env)
+			w.walk(v.Tag, env)
+			w.alternatives(c04Clauses(v.Body), env)
+			return false
+		case *ast.TypeSwitchStmt:
+			w.walk(v.Init, env)
+			w.walk(v.Assign, env)
+			w.alternatives(c04Clauses(v.Body), env)
+			return false
 		case *ast.RangeStmt:
 			if sel, ok := v.X.(*ast.SelectorExpr); ok && env.recv[c04IdentName(sel.X)] {
 				fam := &c04Family{field: sel.Sel.Name}
@@ -189,6 +214,40 @@ func (w *c04Walker) walk(n ast.Node, env *c04Env) {
 		}
 		return true
 	})
+}
+
+func c04Clauses(b *ast.BlockStmt) []ast.Node {
+	var out []ast.Node
+	if b != nil {
+		for _, c := range b.List {
+			out = append(out, c)
+		}
+	}
+	return out
+}
+
+// alternatives walks the branches of an if / switch.  Inside a family, what each branch applies
+// to the accumulated map is collected separately and appended branch by branch in sorted order
+// (the branches exclude each other, so their textual order carries no meaning).
+func (w *c04Walker) alternatives(branches []ast.Node, env *c04Env) {
+	if env.cur == nil {
+		for _, b := range branches {
+			w.walk(b, env)
+		}
+		return
+	}
+	fam := env.cur
+	before := append([]string{}, fam.calls...)
+	var alts []string
+	for _, b := range branches {
+		fam.calls = nil
+		w.walk(b, env)
+		if len(fam.calls) > 0 {
+			alts = append(alts, strings.Join(fam.calls, "+"))
+		}
+	}
+	sort.Strings(alts)
+	fam.calls = append(before, alts...)
 }
 
 func (w *c04Walker) call(ce *ast.CallExpr, env *c04Env) {
